@@ -78,13 +78,16 @@ fn gen_model(r: &mut Rng, kind: &str) -> LinearModel {
         if (kind == "shadow" && !r.chance(1, 4)) || (kind != "shadow" && r.chance(1, 3)) {   // shadow models: unnamed rows interspersed with named ones
             m.add_named_constraint(c, cmp, rhs, &format!("r{j}")); } else { m.add_constraint(c, cmp, rhs); }
     }
-    let obj: Vec<f64> = (0..nv).map(|_| *r.pick(&coefs)).collect();
+    let mut obj: Vec<f64> = (0..nv).map(|_| *r.pick(&coefs)).collect();
+    // bigint (C15): a third of the models have a small objective (|value| < 1 is where a relative gap and an absolute one part)
+    let small = kind == "bigint" && r.chance(1, 3);
+    if small { for c in obj.iter_mut() { *c *= 0.03125; } }
     let dir = match r.below(if kind == "int" || kind == "mixed" { 7 } else { 6 }) { 0 | 1 | 2 => OptimizationType::Min, 3 | 4 | 5 => OptimizationType::Max, _ => OptimizationType::Satisfy };
     m.set_objective(obj, dir);
     // a constant term in the objective (what `min 2x + 10` compiles to), for both directions
     if !matches!(m.optimization_type(), OptimizationType::Satisfy) && r.chance(1, 2) {
         let (o, t, _, c, v, d) = m.into_parts();
-        return LinearModel::new_from_parts(o, t, *r.pick(&[10.0, -3.0, 0.5, 7.0, -12.5]), c, v, d);
+        return LinearModel::new_from_parts(o, t, if small { *r.pick(&[0.25, -0.5, 0.125, -0.25, 0.0625]) } else { *r.pick(&[10.0, -3.0, 0.5, 7.0, -12.5]) }, c, v, d);
     }
     m
 }
@@ -207,14 +210,21 @@ fn main() {
                     { let mut o = out.lock(); writeln!(o, "S {} {}", i, k).unwrap(); o.flush().unwrap(); }
                     let options = rooc::MilpOptions { mip_gap: *gap, time_limit: *tl };
                     let _ = rooc::milp_verif_hooks::take_raw_status();
-                    let res = std::panic::catch_unwind(|| rooc::solve_milp_lp_problem_with(&m, &options).map(|s| sol_json(&s)).unwrap_or_else(|e| err_json(&e)))
+                    // the two entry points of the property, alternating: the direct call and the builder's Microlp wrapper
+                    let via_wrapper = (i + k) % 2 == 1;
+                    let res = std::panic::catch_unwind(|| if via_wrapper {
+                            let mut w = rooc::Microlp::new();
+                            if let Some(g) = gap { w = w.with_mip_gap(*g); }
+                            if let Some(t) = tl { w = w.with_time_limit(*t); }
+                            rooc::Solver::solve(&w, &m).map(|s| sol_json(&s)).unwrap_or_else(|e| err_json(&e))
+                        } else { rooc::solve_milp_lp_problem_with(&m, &options).map(|s| sol_json(&s)).unwrap_or_else(|e| err_json(&e)) })
                         .unwrap_or_else(|_| json!({"status":"panic"}));
                     let raw = rooc::milp_verif_hooks::take_raw_status();
                     let raw_bound = rooc::milp_verif_hooks::take_raw_bound();
                     let mut res = res; res["raw"] = json!(raw);
                     // the bound rooc compares with: microlp's proven bound plus the model's constant term (same f64 sum as in the code)
                     res["bound"] = json!(raw_bound.filter(|b| b.is_finite()).map(|b| fs(b + m.objective_offset())));
-                    res["time_limit_ns"] = json!(tl.map(|d| d.as_nanos() as u64)); res["gap"] = json!(gap.map(fs));
+                    res["time_limit_ns"] = json!(tl.map(|d| d.as_nanos() as u64)); res["gap"] = json!(gap.map(fs)); res["entry"] = json!(if via_wrapper { "Microlp wrapper" } else { "solve_milp_lp_problem_with" });
                     let mut o = out.lock(); writeln!(o, "R {} {} {}", i, k, res).unwrap(); o.flush().unwrap();
                 }
             }
